@@ -72,3 +72,48 @@ Theorem refs_local_same_var_laid_in mode P W w f name line col v o :
 Proof.
   intros Hf Hs Hl Hn. apply refs_local_same_var_in; auto. exact (laid_tr_clean W P name Hf Hs Hl Hn).
 Qed.
+
+(* ------------------------------------------------------------------ the guards of the brief: Laid and classA_ok only.
+   Laid gives the first look-ups (Proofs/TraverseBindLaid1Main.v), the absence of the CB3 / CB4 tags gives the
+   look-ups after cgAssignStat's re-pointing (Proofs/TraverseBindB4.v). *)
+From LH Require Import Proofs.TraverseBindClean1 Proofs.TraverseBindLaid1Main Proofs.TraverseBindB4.
+
+Theorem laid_classA_clean W P n :
+  in_fragment P = true -> tb_shape P = true -> laid_b W P = true -> classA_ok (bind_file P) n = true ->
+  tr_clean P n = true.
+Proof.
+  intros Hf Hs Hl Ha. apply (clean1_classA_clean n P Hf Hs Ha). exact (laid_tr_clean1 W P n Hf Hs Hl).
+Qed.
+
+Definition occ_agrees_classA (P : block) (o : occ) (s : socc) : Prop :=
+  o_loc o = s_loc s /\ o_name o = s_name s /\ krole (o_kind o) (s_role s) /\
+  (o_kind o = ODefineG -> o_res o = None) /\
+  (classA_ok (bind_file P) (o_name o) = true -> tbind o = s_bind s).
+
+(* the core lemma of the brief: on every Laid chunk of the fragment the traversal resolver agrees with the reference
+   binder at every occurrence whose name is outside the classes B3 / B4 *)
+Theorem traverse_bind_core_classA (P : block) (W : Z) :
+  in_fragment P = true -> tb_shape P = true -> laid_b W P = true ->
+  exists os', Permutation (nd (bind_file P)) os' /\ Forall2 (occ_agrees_classA P) (fi_occs (analyse P)) os'.
+Proof.
+  intros Hf Hs Hl. destruct (traverse_bind_core P Hs) as [os' [Hp Hall]]. exists os'. split; [exact Hp|].
+  assert (Hin : forall s, In s os' -> In s (bind_file P)).
+  { intros s Hs'. apply (Permutation_in _ (Permutation_sym Hp)) in Hs'. unfold nd in Hs'. apply filter_In in Hs'. apply Hs'. }
+  clear Hp. induction Hall as [|o s l l' [A1 [A2 [A3 [A5 A4]]]] Hr IH]; constructor.
+  - repeat split; auto. intros Ha. apply A4; [exact (laid_classA_clean W P (o_name o) Hf Hs Hl Ha)|].
+    apply (no_cb3_spec (bind_file P) (o_name o)); [apply classA_no_cb3; exact Ha|apply Hin; left; reflexivity|].
+    symmetry. exact A2.
+  - apply IH. intros s' Hs'. apply Hin. right. exact Hs'.
+Qed.
+
+Theorem refs_local_same_var_classA mode P W w f name line col v o :
+  in_fragment P = true -> tb_shape P = true -> laid_b W P = true ->
+  classA_ok (bind_file P) name = true ->
+  decl_layout_ok (bind_file P) name (v_loc v) = true ->
+  resolve_at w f (analyse P) name line col = TLocal v ->
+  In o (bind_file P) -> s_bind o = BLocal (v_loc v) ->
+  exists l, references_at mode w f (analyse P) name line col = Some l /\
+            forall x, In x l <-> In x (spec_refs [(f, bind_file P)] f o).
+Proof.
+  intros Hf Hs Hl Ha. apply refs_local_same_var_in; auto. exact (laid_classA_clean W P name Hf Hs Hl Ha).
+Qed.
